@@ -882,6 +882,43 @@ impl<'a> Gen<'a> {
         self.out.push_str(&format!("def {v} := {ctor}\n{f}({v})\n"));
     }
 
+    /// a parameter (of a function or of a class) whose written type is a union with ONE
+    /// nullable alternative, called with an argument whose static type is itself nullable
+    /// (a `T?` variable, a call returning `T?`)
+    fn gen_nullable_union_param(&mut self) {
+        let a = self.prim();
+        let mut b = self.prim();
+        if b == a {
+            b = if a == Ty::Int { Ty::Str } else { Ty::Int };
+        }
+        let (an, bn) = (self.ty_name(&a), self.ty_name(&b));
+        let members = if self.rng.chance(1, 2) { format!("{an}?, {bn}") } else { format!("{bn}, {an}?") };
+        let arg = if self.rng.chance(1, 2) {
+            let q = self.fresh("v");
+            if self.rng.chance(1, 2) {
+                self.out.push_str(&format!("def {q}: {an}? := None\n"));
+            } else {
+                let l = self.lit(&a);
+                self.out.push_str(&format!("def {q}: {an}? := {l}\n"));
+            }
+            q
+        } else {
+            let f = self.fresh("nfn");
+            self.out.push_str(&format!("def {f}() -> {an}? => None\n"));
+            format!("{f}()")
+        };
+        if self.rng.chance(1, 2) {
+            let f = self.fresh("nufn");
+            let r = self.fresh("v");
+            self.out.push_str(&format!("def {f}(x: {{{members}}}) -> Str => \"{}\"\ndef {r} := {f}({arg})\n", self.rng.pick(WORDS)));
+        } else {
+            self.counter += 1;
+            let c = format!("{}N{}", capitalise(&self.prefix), self.counter);
+            let (fld, m, r) = (self.fresh("f"), self.fresh("m"), self.fresh("v"));
+            self.out.push_str(&format!("class {c}(def {fld}: {{{members}}})\n    def {m}(self) -> Str => \"{}\"\n\ndef {r} := {c}({arg})\n", self.rng.pick(WORDS)));
+        }
+    }
+
     /// define a value, show it through a helper with a one-letter name, define another: the
     /// placeholder of the string sits in the column (and has the width) of the variables of the
     /// definitions around it
@@ -1188,7 +1225,7 @@ impl<'a> Gen<'a> {
 
     fn gen_toplevel(&mut self) {
         let v = self.fresh("v");
-        let kinds = if self.conservative { 17 } else { 35 };
+        let kinds = if self.conservative { 17 } else { 37 };
         match self.rng.below(kinds) {
             18 | 19 | 20 => self.gen_same_class_union(&v),
             21 | 22 | 23 => self.gen_union_receiver(&v),
@@ -1198,6 +1235,7 @@ impl<'a> Gen<'a> {
             29 | 30 => self.gen_user_generics(),
             31 | 32 => self.gen_deep_clash(),
             33 | 34 => self.gen_show_values(),
+            35 | 36 => self.gen_nullable_union_param(),
             16 => {
                 let (ut, tys) = self.union_ty();
                 let k = self.rng.below(tys.len() as u64) as usize;
